@@ -12,12 +12,12 @@ struct NotImplementedError {};
 #ifndef ADD_TERMS
 #define ADD_TERMS 2
 #endif
-struct Pow; struct Interval; struct TwoArgBasic; struct OneArgFunction; struct Add; struct Complement; struct Contains; struct Mul;
+struct Pow; struct Interval; struct TwoArgBasic; struct OneArgFunction; struct Add; struct Complement; struct Contains; struct Mul; struct MultiArgFunction; struct FiniteSet;
 struct Basic {
   TypeID type_code_;
   long rank; hash_t h_; bool zero_;          /* ghost contract data of an abstract child */
   mutable hash_t hash_;
-  const Pow *pow_; const Interval *iv_; const TwoArgBasic *ta_; const OneArgFunction *oa_; const Add *add_; const Complement *cm_; const Contains *ct_; const Mul *mul_;
+  const Pow *pow_; const Interval *iv_; const TwoArgBasic *ta_; const OneArgFunction *oa_; const Add *add_; const Complement *cm_; const Contains *ct_; const Mul *mul_; const MultiArgFunction *ma_; const FiniteSet *fs_;
   bool composite;
   TypeID get_type_code() const { return type_code_; }
   hash_t __hash__() const;
@@ -97,8 +97,30 @@ inline bool is_same_type(const OneArgFunction &a, const Basic &b) { return a.get
 inline const TwoArgBasic &as_TwoArgBasic(const Basic &b) { return *b.ta_; }
 inline const OneArgFunction &as_OneArgFunction(const Basic &b) { return *b.oa_; }
 /* std::vector<RCP<const Basic>> (argument lists, sets): at most 3 elements, pointer iterators */
-struct vec3 { mutable RCPBasic d[3]; unsigned n; unsigned size() const { return n; } RCPBasic *begin() const { return &d[0]; } RCPBasic *end() const { return &d[0] + n; } };
+/* index iterators (pointers into member arrays with a symbolic end offset abort CBMC 6.11 when the container is nested in another object) */
+struct vec3; struct set3;
+struct vecit { vec3 *m; unsigned k; RCPBasic operator*() const; vecit &operator++() { k++; return *this; } bool operator!=(const vecit &o) const { return k != o.k; } };
+struct setit { set3 *m; unsigned k; RCPBasic operator*() const; setit &operator++() { k++; return *this; } bool operator!=(const setit &o) const { return k != o.k; } };
+struct vec3 { RCPBasic d[3]; unsigned n; vec3() { n = 0; d[0] = 0; d[1] = 0; d[2] = 0; } vec3(const vec3 &o) { n = o.n; d[0] = o.d[0]; d[1] = o.d[1]; d[2] = o.d[2]; } vec3 &operator=(const vec3 &o) { n = o.n; d[0] = o.d[0]; d[1] = o.d[1]; d[2] = o.d[2]; return *this; }
+  unsigned size() const { return n; } RCPBasic at(unsigned k) const { return d[k < 3 ? k : 0]; }
+  vecit begin() const { vecit i; i.m = (vec3 *)this; i.k = 0; return i; } vecit end() const { vecit i; i.m = (vec3 *)this; i.k = n; return i; } };
+/* set_basic (std::set<RCP, RCPBasicKeyLess>): at most 3 elements in key order; a type of its own so that the set overloads of dict.h are selected */
+struct set3 { RCPBasic d[3]; unsigned n; set3() { n = 0; d[0] = 0; d[1] = 0; d[2] = 0; } set3(const set3 &o) { n = o.n; d[0] = o.d[0]; d[1] = o.d[1]; d[2] = o.d[2]; } set3 &operator=(const set3 &o) { n = o.n; d[0] = o.d[0]; d[1] = o.d[1]; d[2] = o.d[2]; return *this; }
+  unsigned size() const { return n; } RCPBasic at(unsigned k) const { return d[k < 3 ? k : 0]; }
+  setit begin() const { setit i; i.m = (set3 *)this; i.k = 0; return i; } setit end() const { setit i; i.m = (set3 *)this; i.k = n; return i; } };
+inline RCPBasic vecit::operator*() const { return m->at(k); }
+inline RCPBasic setit::operator*() const { return m->at(k); }
 #include "ordered.inc"       /* ordered_compare (dict.h), instantiated for the vector stub; ordered_eq / ordered_compare / pair and map overloads for the Mul dictionary */
+struct MultiArgFunction {
+  vec3 arg_; const Basic *self_;
+  TypeID get_type_code() const { return self_->type_code_; }
+#include "multiarg_inline.inc"
+};
+inline bool is_same_type(const MultiArgFunction &a, const Basic &b) { return a.get_type_code() == b.get_type_code(); }
+inline const MultiArgFunction &as_MultiArgFunction(const Basic &b) { return *b.ma_; }
+struct FiniteSet { set3 container_; hash_t __hash__() const; bool __eq__(const Basic &o) const; int compare(const Basic &o) const; };
+inline bool is_a_FiniteSet(const Basic &b) { return b.type_code_ == SYMENGINE_FINITESET; }
+inline const FiniteSet &as_FiniteSet(const Basic &b) { return *b.fs_; }
 #include "keyless.inc"       /* struct RCPBasicKeyLess (basic.h), verbatim */
 /* map_basic_num adict(dict_.begin(), dict_.end()) in Add::compare: ASSUMED CONTRACT of the std::map range constructor — the same pairs,
    ordered by the map's comparator, which is the real RCPBasicKeyLess text above (at most 2 entries: one comparison) */
@@ -114,16 +136,16 @@ inline void sorted_map(const umap_basic_num &u, map_basic_basic &m)
 hash_t Basic::__hash__() const
 {
   if (!composite) return h_;
-  switch (CLS) { case 1: return pow_->__hash__(); case 2: return iv_->__hash__(); case 3: return ta_->__hash__(); case 4: return oa_->__hash__(); case 6: return cm_->__hash__(); case 7: return ct_->__hash__(); case 10: return mul_->__hash__(); default: return add_->__hash__(); }
+  switch (CLS) { case 1: return pow_->__hash__(); case 2: return iv_->__hash__(); case 3: return ta_->__hash__(); case 4: return oa_->__hash__(); case 6: return cm_->__hash__(); case 7: return ct_->__hash__(); case 10: return mul_->__hash__(); case 11: return ma_->__hash__(); case 12: return fs_->__hash__(); default: return add_->__hash__(); }
 }
 bool Basic::__eq__(const Basic &o) const
 {
   if (!composite) return !o.composite && rank == o.rank;
-  switch (CLS) { case 1: return pow_->__eq__(o); case 2: return iv_->__eq__(o); case 3: return ta_->__eq__(o); case 4: return oa_->__eq__(o); case 6: return cm_->__eq__(o); case 7: return ct_->__eq__(o); case 10: return mul_->__eq__(o); default: return add_->__eq__(o); }
+  switch (CLS) { case 1: return pow_->__eq__(o); case 2: return iv_->__eq__(o); case 3: return ta_->__eq__(o); case 4: return oa_->__eq__(o); case 6: return cm_->__eq__(o); case 7: return ct_->__eq__(o); case 10: return mul_->__eq__(o); case 11: return ma_->__eq__(o); case 12: return fs_->__eq__(o); default: return add_->__eq__(o); }
 }
 int Basic::compare(const Basic &o) const
 {
-  switch (CLS) { case 1: return pow_->compare(o); case 2: return iv_->compare(o); case 3: return ta_->compare(o); case 6: return cm_->compare(o); case 7: return ct_->compare(o); case 10: return mul_->compare(o); case 5: return add_->compare(o); default: return oa_->compare(o); }
+  switch (CLS) { case 1: return pow_->compare(o); case 2: return iv_->compare(o); case 3: return ta_->compare(o); case 6: return cm_->compare(o); case 7: return ct_->compare(o); case 10: return mul_->compare(o); case 11: return ma_->compare(o); case 12: return fs_->compare(o); case 5: return add_->compare(o); default: return oa_->compare(o); }
 }
 int Basic::__cmp__(const Basic &o) const { return rank < o.rank ? -1 : (rank > o.rank ? 1 : 0); }     /* children only: the assumed contract */
 
@@ -149,10 +171,10 @@ static void any_children(void)
   for (unsigned k = 0; k < 6; k++) { HT[k] = nondet_ulong(); int t = nondet_int(); __CPROVER_assume(t >= 0 && t < (int)TypeID_Count); TT[k] = t; ZT[k] = nondet_boolean(); }
   any_child(c0); any_child(c1); any_child(c2); any_child(c3); any_child(c4); any_child(c5);
 }
-struct Obj { Basic b; Pow p; Interval iv; TwoArgBasic ta; OneArgFunction oa; Add ad; Complement cm; Contains ct; Mul mu; };
+struct Obj { Basic b; Pow p; Interval iv; TwoArgBasic ta; OneArgFunction oa; Add ad; Complement cm; Contains ct; Mul mu; MultiArgFunction ma; FiniteSet fs; };
 static void any_parent(Obj &o, TypeID tc)
 {
-  o.b.composite = true; o.b.hash_ = 0; o.b.type_code_ = tc; o.b.pow_ = &o.p; o.b.iv_ = &o.iv; o.b.ta_ = &o.ta; o.b.oa_ = &o.oa; o.b.add_ = &o.ad; o.b.cm_ = &o.cm; o.b.ct_ = &o.ct; o.b.mul_ = &o.mu;
+  o.b.composite = true; o.b.hash_ = 0; o.b.type_code_ = tc; o.b.pow_ = &o.p; o.b.iv_ = &o.iv; o.b.ta_ = &o.ta; o.b.oa_ = &o.oa; o.b.add_ = &o.ad; o.b.cm_ = &o.cm; o.b.ct_ = &o.ct; o.b.mul_ = &o.mu; o.b.ma_ = &o.ma; o.b.fs_ = &o.fs;
   o.cm.universe_ = pick(); o.cm.container_ = pick(); o.ct.expr_ = pick(); o.ct.set_ = pick();
   o.p.base_ = pick(); o.p.exp_ = pick();
   o.iv.start_ = pick(); o.iv.end_ = pick(); o.iv.left_open_ = nondet_boolean(); o.iv.right_open_ = nondet_boolean();
@@ -160,6 +182,11 @@ static void any_parent(Obj &o, TypeID tc)
   o.ad.coef_ = pick(); o.ad.dict_.n = nondet_uint(); __CPROVER_assume(o.ad.dict_.n <= ADD_TERMS); o.ad.dict_.rev = nondet_boolean();
   o.ad.dict_.d[0].first = pick(); o.ad.dict_.d[0].second = pick(); o.ad.dict_.d[1].first = pick(); o.ad.dict_.d[1].second = pick();
   __CPROVER_assume(o.ad.dict_.n < 2 || o.ad.dict_.d[0].first->rank != o.ad.dict_.d[1].first->rank);        /* keys of one map are pairwise non-eq */
+  o.ma.self_ = &o.b; o.ma.arg_.n = nondet_uint(); __CPROVER_assume(o.ma.arg_.n <= 3); o.ma.arg_.d[0] = pick(); o.ma.arg_.d[1] = pick(); o.ma.arg_.d[2] = pick();
+  o.fs.container_.n = nondet_uint(); __CPROVER_assume(o.fs.container_.n <= 3); o.fs.container_.d[0] = pick(); o.fs.container_.d[1] = pick(); o.fs.container_.d[2] = pick();
+  /* elements of one set are pairwise non-eq */
+  __CPROVER_assume(o.fs.container_.n < 2 || o.fs.container_.d[0]->rank != o.fs.container_.d[1]->rank);
+  __CPROVER_assume(o.fs.container_.n < 3 || (o.fs.container_.d[0]->rank != o.fs.container_.d[2]->rank && o.fs.container_.d[1]->rank != o.fs.container_.d[2]->rank));
   o.mu.coef_ = pick(); o.mu.dict_.n = nondet_uint(); __CPROVER_assume(o.mu.dict_.n <= 2);
   o.mu.dict_.d[0].first = pick(); o.mu.dict_.d[0].second = pick(); o.mu.dict_.d[1].first = pick(); o.mu.dict_.d[1].second = pick();
   __CPROVER_assume(o.mu.dict_.n < 2 || o.mu.dict_.d[0].first->rank != o.mu.dict_.d[1].first->rank);
@@ -174,6 +201,8 @@ static TypeID parent_code(void)
   return SYMENGINE_ADD;
 #elif CLS == 10
   return SYMENGINE_MUL;
+#elif CLS == 12
+  return SYMENGINE_FINITESET;
 #elif CLS == 6
   return SYMENGINE_COMPLEMENT;
 #elif CLS == 7
